@@ -31,6 +31,9 @@ META = dict(
                  'by rounding of up to ~10 matrix-exponential products (observed <= 70 ulp of 1), so pdf values are '
                  'compared at 1e-10 relative + 1024*eps/dx absolute (1e-4..1e-3 for the default step, 2.4e-10 for the '
                  'explicit step dx = 2^-10); this is far below the differences between pdf values at distinct times',
+                 'centred second moments are computed by the code as m2 - m1^2 of raw moments that can be 1e5 times larger '
+                 '(tbl at t=4: m2 ~ 144, variance ~ 6e-4), so their rounding is relative to the raw moment: they are '
+                 'compared at 1e-10 relative + 1e-12 + 1e-10 x |raw second moment at that time| absolute',
                  'get_epochs results are compared by (start_time, end_time) because Epoch.__eq__ ignores times',
                  'cases in which PhaseGen logs a warning (stiff generator) are skipped'],
 )
@@ -102,6 +105,14 @@ def call(pg, coal, ep, ts):
     k = int(parts[2][0])
     center = not parts[2].endswith('r')
     return dist.accumulate(k, ts, center=center)
+
+
+def centred_raw(ep):
+    """the raw (center=False) twin of a centred accumulate entry point, None otherwise"""
+    head, sep, arg = ep.partition(':')
+    if head.endswith('.2c'):
+        return head[:-1] + 'r' + sep + arg
+    return None
 
 
 def is_scalar_ep(ep):
@@ -187,9 +198,14 @@ def check_vector(ctx, pg, cfg, ep, ts, container, mode, coal_vec, coal_single, c
     if n_out != len(ts):
         ctx.violation(f'shape:{ep.split(":")[0]}', expected_len=len(ts), observed_shape=list(np.shape(res)), **detail)
         return True
+    abs0 = abs_
+    raw_ep = centred_raw(ep)
     for i, t in enumerate(ts):
         obs = got[i] if ep == 'get_epochs' else got[..., i]
         exp, sc = singles[i]
+        if raw_ep is not None:
+            # a centred moment is the difference of raw moments: its rounding is relative to those
+            abs_ = abs0 + rel * np.abs(single_value(pg, coal_single, raw_ep, t, cache)[0])
         if not equal(ep, obs, exp, rel, abs_):
             # which single-time value did we get instead (diagnostic only)
             other = [j for j in range(len(ts)) if equal(ep, obs, singles[j][0], rel, abs_)]
